@@ -135,9 +135,9 @@ def stepLine (cfg : Cfg) (line : String) : String :=
     | none => "bad-op"
 
 /-- the code as it is in `/repo` -/
-def proto : Proto := { σ := Unit, init := (), step := fun s l => (s, stepLine Cfg.repo l) }
+def proto : Proto := { σ := Unit, init := (), step := fun s l => (s, stepLine Cfg.fixed l) }
 
-/-- the code with `work/proposed_fixes/Circuit-1.diff` applied -/
-def protoFixed : Proto := { σ := Unit, init := (), step := fun s l => (s, stepLine Cfg.fixed l) }
+/-- the code before the `fix:` commit c066e71 (not registered; for replaying old findings) -/
+def protoBeforeFix : Proto := { σ := Unit, init := (), step := fun s l => (s, stepLine Cfg.beforeFix l) }
 
 end OxiddModel.Circuit
